@@ -854,6 +854,16 @@ func init() {
 				out = append(out, Inst{Pkg: "knx", Fn: "HarnessC16HostInfoBB", Args: []int64{tcp, loc}, NoNative: true, Note: "connect request written by the real NewTunnel"})
 			}
 		}
+		// black box: the real DialTunnelUDP / DialTunnelTCP on stubbed net.Resolve*/Dial*
+		for first := int64(0); first <= 3; first++ {
+			out = append(out, Inst{Pkg: "knxnet", Fn: "HarnessC16DialUDP", Args: []int64{1, 3, first}, NoNative: true, Note: "real DialTunnelUDP: first datagram none / empty / foreign sender / arbitrary"},
+				Inst{Pkg: "knxnet", Fn: "HarnessC16DialUDP", Args: []int64{2, first, first}, NoNative: true})
+		}
+		for k0 := int64(0); k0 < 5; k0++ {
+			out = append(out, Inst{Pkg: "knxnet", Fn: "HarnessC16DialTCP", Args: []int64{1, k0, cuts, 0}, NoNative: true, Note: "real DialTunnelTCP: every placement of the cut points"},
+				Inst{Pkg: "knxnet", Fn: "HarnessC16DialTCP", Args: []int64{1, k0, 0, 1}, NoNative: true, Note: "1-byte dribble"})
+		}
+		out = append(out, Inst{Pkg: "knxnet", Fn: "HarnessC16DialTCP", Args: []int64{2, 3, 1, 0}, NoNative: true})
 		return out
 	}
 	hang := func(in []Inst) []Inst {
@@ -869,8 +879,8 @@ func init() {
 		NoNative: true,
 		Quick:    func(l *loaded) []Inst { return hang(c16(false)) },
 		Thorough: func(l *loaded) []Inst { return hang(c16(true)) },
-		Covers:   []string{"C16.tcp.end", "C16.tcpbad.end", "C16.udp.end", "C16.hostinfo.nat", "C16.hostinfo.local", "C16.hostinfo.bb.nat", "C16.hostinfo.bb.local", "C16.send.concurrent.end", "C16.close.end", "C16.origin.accepted", "C16.origin.dropped", "C16.tcpbig.end"},
-		Bounds:   "real serveTCPSocket (with the real bufio.Reader and io.ReadFull) on streams of 1..2 (thorough 3) concatenated frames of five kinds (tunnelling ack, connection-state response, disconnect request, tunnelling requests carrying L_Data and L_Busmon) with symbolic field values, one 4.2 KB bus-monitor frame (longer than bufio's buffer), the Read stub returning: every placement of up to 2 (3) cut points, 1-byte dribble, or everything at once, then EOF; a frame with arbitrary body followed by a good one; a header announcing total length 0..5 (symbolic); real serveUDPSocket on 1..2 (3) datagrams, optionally preceded by an arbitrary symbolic datagram of 1..12 bytes into the reused 1024-byte buffer; Tunnel.hostInfo through requestConn for UDP/TCP/other sockets with and without SendLocalAddress; 2 (thorough 3) goroutines sending different frames through one TunnelSocket whose Write is a scheduling point",
+		Covers:   []string{"C16.tcp.end", "C16.tcpbad.end", "C16.udp.end", "C16.hostinfo.nat", "C16.hostinfo.local", "C16.hostinfo.bb.nat", "C16.hostinfo.bb.local", "C16.dial.udp.end", "C16.dial.tcp.end", "C16.send.concurrent.end", "C16.close.end", "C16.origin.accepted", "C16.origin.dropped", "C16.tcpbig.end"},
+		Bounds:   "real serveTCPSocket (with the real bufio.Reader and io.ReadFull) on streams of 1..2 (thorough 3) concatenated frames of five kinds (tunnelling ack, connection-state response, disconnect request, tunnelling requests carrying L_Data and L_Busmon) with symbolic field values, one 4.2 KB bus-monitor frame (longer than bufio's buffer), the Read stub returning: every placement of up to 2 (3) cut points, 1-byte dribble, or everything at once, then EOF; a frame with arbitrary body followed by a good one; a header announcing total length 0..5 (symbolic); real serveUDPSocket on 1..2 (3) datagrams, optionally preceded by an arbitrary symbolic datagram of 1..12 bytes into the reused 1024-byte buffer; Tunnel.hostInfo through requestConn for UDP/TCP/other sockets with and without SendLocalAddress; 2 (thorough 3) goroutines sending different frames through one TunnelSocket whose Write is a scheduling point; the same receive/send/close clauses through the real constructors DialTunnelUDP / DialTunnelTCP running on stubbed net.Resolve*/Dial* (peer 192.0.2.1:3671): 1..2 datagrams preceded by nothing / an empty datagram / a datagram from a foreign sender (host and port symbolic) / 8 arbitrary bytes; TCP streams of 1..2 frames with cut points or dribble; one Send (exactly one write of Size bytes) and Close",
 		Outside:  "50-frame streams (the receiver keeps no state between frames other than bufio's buffer); more than 3 cut points at once; more than 2 (thorough 3) concurrent senders; an application that never reads again after Close (a receiver blocked on an undelivered frame ends only when that frame is read; decided here: Close with 0..2 decoded frames pending and a reader that drains); kernel sockets, Dial*/Listen*, address parsing inside HostInfoFromAddress (redirected to an environment function)",
 		Assume:   []string{"(*net.TCPConn).Read / (*net.UDPConn).ReadFromUDP are engine stubs obeying the io.Reader contract with nondeterministic segment sizes"},
 	})
